@@ -185,13 +185,34 @@ Section Patcher.
       end)))
     end.
 
-  (** skipFile *)
+  (** skipFile (after repo commit "fix: skipFile follows the series kind announced by the sync
+      header"): an rsync series is read as SyncOps up to the end marker; a bsdiff series as
+      BsdiffHeader, Controls up to and including the one marked eof, then the end marker *)
   Fixpoint skip_rsync (ms : list pmsg) : res (list pmsg) :=
     match ms with
     | [] => Err
     | m :: r => if so_type (as_so m) =? HEY then Ok r else skip_rsync r
     end.
-  Definition skip_file (kind : Z) (ms : list pmsg) : res (list pmsg) := skip_rsync ms.
+  Fixpoint skip_ctrls (ms : list pmsg) : res (list pmsg) :=
+    match ms with
+    | [] => Err
+    | m :: r => if ct_eof (as_ct m) then Ok r else skip_ctrls r
+    end.
+  Definition skip_bsdiff (ms : list pmsg) : res (list pmsg) :=
+    match ms with
+    | [] => Err
+    | _ :: r => bind (skip_ctrls r) (fun r' =>
+                match r' with
+                | [] => Err
+                | m2 :: r2 => if so_type (as_so m2) =? HEY then Ok r2 else Err
+                end)
+    end.
+  Definition skip_file (kind : Z) (ms : list pmsg) : res (list pmsg) :=
+    if kind =? SH_BSDIFF then skip_bsdiff ms else skip_rsync ms.
+
+  (** skipFile as it was before that commit: every frame decoded as a SyncOp, whatever the
+      series kind (kept for [skip_v0_desync] in Patch/PatcherProofs.v, the recorded defect) *)
+  Definition skip_file_v0 (kind : Z) (ms : list pmsg) : res (list pmsg) := skip_rsync ms.
 
   Definition wl_skip (fileIndex : Z) : bool :=
     match whitelist with
